@@ -52,6 +52,8 @@ impl Writer {
     }
 
     pub(super) fn write(&self, data: &[u8]) -> std::io::Result<()> {
+        #[cfg(feature = "verif")]
+        crate::wal::verif::sched_point("w_enter");
         // Check if batch write is in progress
         if self.is_batch_writing.load(Ordering::Acquire) {
             return Err(std::io::Error::new(
@@ -59,6 +61,8 @@ impl Writer {
                 "batch write in progress for this topic",
             ));
         }
+        #[cfg(feature = "verif")]
+        crate::wal::verif::sched_point("w_after_flag_check");
 
         let mut block = self.current_block.lock().map_err(|_| {
             std::io::Error::new(std::io::ErrorKind::Other, "current_block lock poisoned")
@@ -144,6 +148,8 @@ impl Writer {
             }
         }
 
+        #[cfg(feature = "verif")]
+        crate::wal::verif::sched_point("bw_enter");
         // Phase 0: Validate batch size
         if batch.len() > MAX_BATCH_ENTRIES {
             return Err(std::io::Error::new(
@@ -192,6 +198,8 @@ impl Writer {
             total_bytes
         );
 
+        #[cfg(feature = "verif")]
+        crate::wal::verif::sched_point("bw_after_flag");
         // Phase 1: Pre-allocation & Planning
         let mut block = self.current_block.lock().map_err(|_| {
             std::io::Error::new(std::io::ErrorKind::Other, "current_block lock poisoned")
@@ -427,6 +435,30 @@ impl Writer {
             write_plan.len()
         );
 
+        #[cfg(feature = "verif")]
+        {
+            let sqes: Vec<(i32, u64, &[u8])> = write_plan
+                .iter()
+                .zip(buffers.iter())
+                .filter_map(|((blk, offset, _), buf)| {
+                    blk.mmap
+                        .storage()
+                        .as_fd()
+                        .map(|f| (f.file().as_raw_fd(), blk.offset + offset, buf.as_slice()))
+                })
+                .collect();
+            crate::wal::verif::io_event("uring_submit", &self.col, 0, sqes.len() as u64);
+            crate::wal::verif::uring_batch_presubmit(&sqes);
+        }
+        #[cfg(feature = "verif")]
+        if crate::wal::verif::should_fail("uring_submit") {
+            // make the real submission fail: the ring's descriptor is replaced by /dev/null
+            unsafe {
+                let null = libc::open(b"/dev/null\0".as_ptr() as *const libc::c_char, libc::O_RDWR);
+                libc::dup2(null, ring.as_raw_fd());
+                libc::close(null);
+            }
+        }
         // Phase 3: Atomic submission
         match ring.submit_and_wait(write_plan.len()) {
             Ok(_) => {
@@ -436,6 +468,8 @@ impl Writer {
                         let data_idx = cqe.user_data() as usize;
                         let expected_bytes = buffers.get(data_idx).map(|b| b.len()).unwrap_or(0);
                         let result = cqe.result();
+                        #[cfg(feature = "verif")]
+                        let result = crate::wal::verif::cqe_override(data_idx as u64, result);
 
                         if result < 0 {
                             all_success = false;
